@@ -458,6 +458,17 @@ func (v *PacketDslVisitorImpl) VisitInerObjectField(ctx *gen.InerObjectFieldCont
 			})
 			continue
 		}
+		if _, ok := f.Attr.(*model.MatchFieldAttribute); ok {
+			// the key field of a match is only resolved for packets; an unresolved key crashed
+			// every generator
+			v.BinModel.AddSyntaxError(&model.SyntaxError{
+				Line:            fctx.GetStart().GetLine(),
+				Column:          fctx.GetStart().GetTokenSource().GetCharPositionInLine(),
+				Msg:             "Match field " + f.Name + " is not supported inside inline object " + name + ", declare a packet instead",
+				OffendingSymbol: nil,
+			})
+			continue
+		}
 		if _, exists := subFieldNames[f.Name]; exists {
 			v.BinModel.AddSyntaxError(&model.SyntaxError{
 				Line:            fctx.GetStart().GetLine(),
